@@ -1556,3 +1556,169 @@ Proof.
       rewrite (wb_last_not_node Wt _ k Kt) by (rewrite Hk; auto).
       rewrite (wb_last_not_node Wh _ k Kh) by (rewrite Hk; auto). reflexivity.
 Qed.
+
+(* ---------- the refinement theorem ---------- *)
+
+Lemma R_init : R pdb_init spec_init.
+Proof.
+  split; [exact I | split].
+  - intros k v H. discriminate.
+  - intros n. constructor; cbn; auto; try (intros; discriminate); try contradiction.
+    + unfold n_ssidx, max_index; cbn; lia.
+    + unfold n_last, nlen, max_index; cbn; lia.
+Qed.
+
+Lemma plain_step_R : forall d s o, R d s -> spec_wf_op s o = true ->
+  exists d', plain_step d o = Some d' /\ R d' (spec_step s o).
+Proof.
+  intros d s o HR Hwf. destruct o.
+  - now apply save_raft_state_R.
+  - now apply save_snapshots_R.
+  - eexists. split; [reflexivity|]. now apply remove_entries_to_R.
+  - now apply remove_node_data_R.
+  - now apply import_snapshot_R.
+  - eexists. split; [reflexivity|]. now apply reopen_R.
+Qed.
+
+Lemma plain_query_R : forall d s q, R d s ->
+  R (snd (plain_query d q)) s /\
+  (spec_wf_query s q = true -> plain_observe d q = spec_answer s q).
+Proof.
+  intros d s q HR. unfold plain_observe. destruct q; cbn [plain_query fst snd].
+  - split; auto. intros. now apply iterate_refines.
+  - split; auto. intros. now apply read_state_refines.
+  - destruct (get_snapshot_refines d s n HR). split; auto.
+Qed.
+
+Lemma plain_run_R : forall l d s, R d s -> wf_ops s (muts l) = true ->
+  exists d', fold_left plain_pstep l (Some d) = Some d' /\ R d' (spec_run s (muts l)).
+Proof.
+  induction l as [|p l IH]; intros d s HR Hwf.
+  - exists d. split; auto.
+  - destruct p as [o|q].
+    + cbn [muts flat_map app] in *. fold (muts l) in *. cbn [wf_ops] in Hwf.
+      apply andb_true_iff in Hwf. destruct Hwf as [W1 W2].
+      destruct (plain_step_R d s o HR W1) as (d1 & E1 & R1).
+      cbn [fold_left plain_pstep]. rewrite E1. unfold spec_run. cbn [fold_left]. now apply IH.
+    + cbn [muts flat_map app] in *. fold (muts l) in *. cbn [fold_left plain_pstep].
+      apply IH; auto. now apply plain_query_R.
+Qed.
+
+Theorem plain_refines_proved : forall l q,
+  wf_ops spec_init (muts l) = true ->
+  spec_wf_query (spec_run spec_init (muts l)) q = true ->
+  exists d, plain_prun l = Some d /\
+            plain_observe d q = spec_answer (spec_run spec_init (muts l)) q.
+Proof.
+  intros l q Hwf Hq. destruct (plain_run_R l pdb_init spec_init R_init Hwf) as (d & E & HR).
+  exists d. split; auto. now apply (plain_query_R d _ q HR).
+Qed.
+
+(* the model never panics on contract-abiding runs *)
+Theorem plain_no_panic_proved : forall l, wf_ops spec_init (muts l) = true -> plain_prun l <> None.
+Proof.
+  intros l Hwf. destruct (plain_run_R l pdb_init spec_init R_init Hwf) as (d & E & _).
+  unfold plain_prun. rewrite E. discriminate.
+Qed.
+
+(* ---------- corollaries about IterateEntries ---------- *)
+
+Section Corollaries.
+  Variables (l : list pop) (n : nid) (low high maxsz : N) (d : pdb) (es : list entry) (sz : N).
+  Hypothesis Hwf : wf_ops spec_init (muts l) = true.
+  Hypothesis Hq : spec_wf_query (spec_run spec_init (muts l)) (QIter n low high maxsz) = true.
+  Hypothesis Hrun : plain_prun l = Some d.
+  Hypothesis Hans : p_iterate d n low high maxsz = RIter es sz.
+
+  Let s := spec_run spec_init (muts l).
+  Let full := filter (in_range low high) (n_ents (s n)).
+
+  Lemma cor_setup : R d s /\ take_size maxsz 0 full = (es, sz).
+  Proof.
+    destruct (plain_run_R l pdb_init spec_init R_init Hwf) as (d' & E & HR).
+    unfold plain_prun in Hrun. rewrite Hrun in E. inversion E; subst d'. split; auto.
+    pose proof (proj2 (plain_query_R d s (QIter n low high maxsz) HR) Hq) as HA.
+    unfold plain_observe in HA. cbn [plain_query fst] in HA. rewrite Hans in HA.
+    cbn [canon spec_answer] in HA. fold s in HA. fold full in HA.
+    destruct (take_size maxsz 0 full) as [a b]. now inversion HA.
+  Qed.
+
+  Lemma cor_prefix : exists rest, full = es ++ rest.
+  Proof.
+    destruct cor_setup as [_ HT]. destruct (take_size_prefix full maxsz 0) as [rest Hr].
+    rewrite HT in Hr. cbn [fst] in Hr. eauto.
+  Qed.
+
+  (* every returned entry is the entry the logical log holds at that index *)
+  Lemma never_stale_entry_proved : forall e, In e es -> In e (n_ents (s n)).
+  Proof.
+    intros e HI. destruct cor_prefix as [rest Hr].
+    assert (In e full) as HF by (rewrite Hr; apply in_or_app; now left).
+    unfold full in HF. apply filter_In in HF. tauto.
+  Qed.
+
+  Lemma never_past_logical_end_proved : forall e, In e es ->
+    low <= e_index e < high /\ e_index e <= n_last (s n).
+  Proof.
+    intros e HI. destruct cor_prefix as [rest Hr]. destruct cor_setup as [(_ & _ & HR) _].
+    assert (In e full) as HF by (rewrite Hr; apply in_or_app; now left).
+    unfold full in HF. apply filter_In in HF. destruct HF as [HF1 HF2].
+    unfold in_range in HF2. apply andb_true_iff in HF2. destruct HF2 as [A B].
+    apply N.leb_le in A. apply N.ltb_lt in B.
+    pose proof (contig_bounds _ _ _ (r_contig _ _ _ _ (HR n)) HF1). unfold n_last. lia.
+  Qed.
+
+  Lemma contig_prefix : forall (a b : list entry) i, contig i (a ++ b) -> contig i a.
+  Proof.
+    induction a as [|e a IH]; intros b i H; [exact I|]. destruct H as [H1 H2]. split; eauto.
+  Qed.
+
+  (* the answer starts at low and has no gap *)
+  Lemma never_gap_proved : contig low es.
+  Proof.
+    destruct cor_prefix as [rest Hr]. destruct cor_setup as [(_ & _ & HR) _].
+    cbn [spec_wf_query] in Hq. rewrite !andb_true_iff in Hq. destruct Hq as (((W1 & _) & _) & _).
+    apply N.ltb_lt in W1. fold s in W1.
+    destruct (filter_range_contig _ _ low high (r_contig _ _ _ _ (HR n)) ltac:(lia)) as [FC _].
+    fold full in FC. rewrite Hr in FC. eapply contig_prefix; eauto.
+  Qed.
+End Corollaries.
+
+(* a shorter answer is only ever caused by the size limit *)
+Lemma take_size_short : forall es maxsz size r sz, take_size maxsz size es = (r, sz) ->
+  r = es \/ maxsz < sz.
+Proof.
+  induction es as [|e es IH]; intros maxsz size r sz H; cbn [take_size] in H.
+  - inversion H. now left.
+  - destruct (maxsz <? size + esize e) eqn:E.
+    + inversion H; subst. right. now apply N.ltb_lt.
+    + destruct (take_size maxsz (size + esize e) es) as [r' sz'] eqn:T. inversion H; subst.
+      destruct (IH _ _ _ _ T) as [->|X]; [now left | now right].
+Qed.
+
+Lemma size_limit_only_shortens_proved : forall l n low high maxsz d es sz,
+  wf_ops spec_init (muts l) = true ->
+  spec_wf_query (spec_run spec_init (muts l)) (QIter n low high maxsz) = true ->
+  plain_prun l = Some d -> p_iterate d n low high maxsz = RIter es sz ->
+  (exists rest, filter (in_range low high) (n_ents (spec_run spec_init (muts l) n)) = es ++ rest) /\
+  (es = filter (in_range low high) (n_ents (spec_run spec_init (muts l) n)) \/ maxsz < sz).
+Proof.
+  intros l n low high maxsz d es sz Hwf Hq Hrun Hans. split.
+  - eapply cor_prefix; eauto.
+  - destruct (cor_setup l n low high maxsz d es sz Hwf Hq Hrun Hans) as [_ HT].
+    now apply take_size_short in HT.
+Qed.
+
+(* closing and reopening the store changes no observation *)
+Lemma reopen_preserves_obs_proved : forall l q d,
+  wf_ops spec_init (muts l) = true ->
+  spec_wf_query (spec_run spec_init (muts l)) q = true ->
+  plain_prun l = Some d ->
+  plain_observe (p_reopen d) q = plain_observe d q.
+Proof.
+  intros l q d Hwf Hq Hrun.
+  destruct (plain_run_R l pdb_init spec_init R_init Hwf) as (d' & E & HR).
+  unfold plain_prun in Hrun. rewrite Hrun in E. inversion E; subst d'.
+  rewrite (proj2 (plain_query_R d _ q HR) Hq).
+  apply (proj2 (plain_query_R (p_reopen d) _ q (reopen_R _ _ HR)) Hq).
+Qed.
